@@ -404,8 +404,8 @@ MUTANTS += [
     {"id": "n10", "prop": "C03", "expect": ["C03-R4"], "files": [(EU, "    if value.isdigit():", "    if False:")]},
     {"id": "n11", "prop": "C03", "expect": ["C03-R5"], "files": [(EU, "    Sub: \"-\",\n}", "    Sub: \"+\",\n}")]},
     {"id": "n12", "prop": "C03", "expect": ["C03-R5"], "files": [(EU, "    Is: \" is \",", "    Is: \"is\",")]},
-    {"id": "n14", "prop": "C04", "expect": ["C04-R1"], "files": [(EU, "        if i == qm:\n            out.append(f\"\\\\{qm}\")\n        elif ord(i) > 255", "        if ord(i) > 255")]},
-    {"id": "n15", "prop": "C04", "expect": ["C04-R1"], "files": [(EU, "        elif ord(i) > 255 and", "        elif ord(i) > 126 and")]},
+    {"id": "n14", "prop": "C04", "expect": ["C04-R1"], "files": [(EU, "        if i == qm:\n            out.append(f\"\\\\{qm}\")\n        elif ord(i) > 127", "        if ord(i) > 127")]},
+    {"id": "n15", "prop": "C04", "expect": ["C04-R1"], "files": [(EU, "        elif ord(i) > 127 and", "        elif ord(i) > 126 and")]},
     {"id": "n16", "prop": "C04", "expect": ["C04-R2"], "files": [(EU, ".replace(\"inf\", \"1e309\")", ".replace(\"inf\", \"1e308\")")]},
     {"id": "n17", "prop": "C04", "expect": ["C04-R3"], "files": [(EU, "    if value[0] == \"{\":\n        value = \" \" + value\n", "")]},
     {"id": "n18", "prop": "C04", "expect": ["C04-R4"], "files": [(EU, "            if outer_str_qm == \"'\":\n                self.qm = '\"'\n            elif outer_str_qm == '\"':\n                self.qm = \"'\"", "            self.qm = outer_str_qm")]},
@@ -475,4 +475,22 @@ EQUIVALENTS += [
      "files": [("oneliner/config.py", "            if not isinstance(value, self.tp):\n                raise ValueError(f\"Invalid value of config '{self.name}'\")\n        instance.__dict__[self.name] = value", "            if not isinstance(value, self.tp):\n                raise ValueError(f\"Invalid value of config '{self.name}'\")\n            instance.__dict__[self.name] = value\n            return\n        vars(instance)[self.name] = value")]},
     {"id": "e21", "props": ["C11", "C12", "C07"], "why": "implicit classmethod decided before the decorator loop, applied after it",
      "files": [(PN, "        for dec_expr in reversed(self.node.decorator_list):\n            body_expr = Call(\n                func=expr_transf(self.nsp, dec_expr),\n                args=[body_expr],\n                keywords=[],\n            )\n\n        if self.internal_nsp.is_method and self.node.name in (\n            \"__init_subclass__\",\n            \"__class_getitem__\",\n        ):", "        implicit_cm = self.internal_nsp.is_method and self.node.name in (\n            \"__init_subclass__\",\n            \"__class_getitem__\",\n        )\n        for dec_expr in reversed(self.node.decorator_list):\n            body_expr = Call(\n                func=expr_transf(self.nsp, dec_expr),\n                args=[body_expr],\n                keywords=[],\n            )\n\n        if implicit_cm:")]},
+]
+
+# rules added after the hunting rounds
+MUTANTS += [
+    {"id": "r01", "prop": "C04", "expect": ["C04-R6"], "files": [(EU, "        elif ord(i) > 127 and", "        elif ord(i) > 255 and")]},
+    {"id": "r02", "prop": "C04", "expect": ["C04-R6"], "files": [(EU, "        elif ord(i) > 127 and", "        elif ord(i) > 0x2000 and")]},
+]
+MUTANTS += [
+    {"id": "r03", "prop": "C15", "expect": ["C15-R2"], "files": [(EU, "    if \"\\\\\" in value:\n", "    if False:\n")]},
+    {"id": "r04", "prop": "C15", "expect": ["C15-R2"], "files": [(EU, "    if qm in value:\n", "    if qm in value and node.format_spec is None:\n")]},
+    {"id": "r05", "prop": "C04", "expect": ["C04-R7"], "files": [(EU, "            field = yield PREC_FORMAT_EXPR_SLOT, v\n            contents.append(field)", "            field = yield PREC_FORMAT_EXPR_SLOT, v\n            if \"\\\\\" in field:\n                raise SyntaxError(\"Back slash is included in a f-string\")\n            contents.append(field)")]},
+    {"id": "r06", "prop": "C15", "expect": ["C15-R2"], "files": [(EU, "    if qm in value:\n", "    if qm in value and sys.version_info < (3, 12):\n"), (EU, "import typing\n", "import sys\nimport typing\n")]},
+]
+EQUIVALENTS += [
+    {"id": "e23", "props": ["C04", "C15", "C02", "C03"], "why": "both refusal tests in one condition",
+     "files": [(EU, "    if \"\\\\\" in value:\n", "    if \"\\\\\" in value or False:\n")]},
+    {"id": "e22", "props": ["C04", "C15", "C02"], "why": "the same threshold spelled as >= 128",
+     "files": [(EU, "        elif ord(i) > 127 and", "        elif ord(i) >= 128 and")]},
 ]
